@@ -80,3 +80,14 @@ package pruner
 //@   property C14
 //@   noframe
 //@   requires s != nil && s.checkpoint != nil
+
+// Retrying failed heights: a height leaves the failed set only after its block was pruned successfully -
+// the header asked from the store is the one of that height, and the pruner is given that header.
+//@ extern (github.com/celestiaorg/celestia-node/pruner.Pruner).Prune
+//@   effect $Pruned := err == nil
+//@ func (*Service).retryFailed
+//@   property C14
+//@   noframe
+//@   requires s != nil && s.checkpoint != nil
+//@   callpre Getter).GetByHeight: $arg2 == failed
+//@   callpre Pruner).Prune: $arg2 == h
